@@ -7,15 +7,6 @@ import (
 	"syscall"
 )
 
-// AbortConn closes c with a TCP reset (SO_LINGER 0) instead of a FIN. It looks through the
-// wrappers this package and crypto/tls put around a TCP connection.
-func AbortConn(c net.Conn) {
-	if tc := tcpOf(c); tc != nil {
-		tc.SetLinger(0)
-	}
-	c.Close()
-}
-
 func tcpOf(c net.Conn) *net.TCPConn {
 	for i := 0; i < 8 && c != nil; i++ {
 		switch v := c.(type) {
@@ -33,9 +24,6 @@ func tcpOf(c net.Conn) *net.TCPConn {
 	}
 	return nil
 }
-
-// Abort resets the peer side of an accepted connection.
-func (pc *PeerConn) Abort() { AbortConn(pc.Conn) }
 
 // Abort resets the client connection.
 func (c *Client) Abort() { AbortConn(c.Conn) }
